@@ -167,6 +167,16 @@ def rule_forward(ctx):
                                   expected="allow_custom forwarded", found="omitted, default %s" % omitted_default)
                 continue
             pr = flow_of(fi).prov(e)
+            if isinstance(e, ast.Call) and isinstance(e.func, ast.Attribute) and e.func.attr in ("get", "pop") and fi.kwarg \
+                    and norm(e.func.value) == fi.kwarg:
+                # the switch is read out of **kwargs: under its own name, and absent means strict
+                okk = bool(e.args) and isinstance(e.args[0], ast.Constant) and e.args[0].value == SWITCH and (
+                    len(e.args) == 1 or (isinstance(e.args[1], ast.Constant) and not e.args[1].value))
+                run.check(okk, R, c, "the switch handed to %s is read from **%s under another name or with a permissive default: "
+                          "the embedded value is cleaned with customisation allowed although the caller did not ask for it" %
+                          (callee, fi.kwarg), file=fi.module.relpath, line=call.lineno, function=fi.qualname,
+                          expected="%s.get('allow_custom', False)" % fi.kwarg, found=norm(e))
+                continue
             if isinstance(e, ast.Constant):
                 if e.value is True:
                     ok = fi.id in CONST_TRUE_OK and not (has_param or has_self)
